@@ -16,7 +16,10 @@ RULE = ('case = (method class, one valid value per argument, channel). Sweep: ev
         'width of each wire type (strings up to 255 bytes / 70 KiB incl. non-BMP, nested '
         'tables from the C03 grammar), channel 0..65535. Oracle: consumed == len(bytes), '
         'same channel, type(decoded) is the same class, every slot type-exactly equal to '
-        'the constructed attribute (tables under the C03 normalisation). Non-trivial = has '
+        'the constructed attribute (tables under the C03 normalisation). reassign: one object '
+        'is encoded, every argument re-assigned after construction (setattr; tables also in '
+        'place) and encoded again - the second encoding must decode to the second '
+        'assignment. Non-trivial = has '
         '>= 1 argument and (a bit group of >= 2 bits not all equal, or a non-ASCII '
         'string, or a non-empty table, or an integer >= half range, or channel >= 256); '
         'distinct = distinct 64-bit digest of the canonical case.')
@@ -107,6 +110,75 @@ def classes(case):
     return out
 
 
+def check_reassign(case):
+    """the same object encoded, re-assigned (attribute by attribute, tables in place) and
+    encoded again: the second encoding must carry the second assignment"""
+    dotted, ch = case['cls'], case['ch']
+    obj = call('construct', make_method, dotted, case['args'])
+    first = call('marshal', frame.marshal, obj, ch)
+    m = spec_table.BY_NAME[dotted]
+    for f in m.fields:
+        new = case['args2'][f.name]
+        cur = getattr(obj, f.name)
+        if f.type == 'table' and case['inplace'] and isinstance(cur, dict):
+            cur.clear()
+            cur.update(new)
+        else:
+            setattr(obj, f.name, new)
+    data = call('marshal', frame.marshal, obj, ch)
+    n, rch, out = call('unmarshal', frame.unmarshal, data)
+    if n != len(data) or rch != ch or type(out) is not method_class(dotted):
+        raise Violation('reassign:envelope', 'second encoding decodes as %s, %r of %d '
+                        'bytes, channel %r' % (type(out).__name__, n, len(data), rch))
+    for f in m.fields:
+        want = expected_slot(case['args2'][f.name], f.type)
+        d = refcodec.agree(want, getattr(out, f.name, '<missing>'),
+                           '%s.%s' % (dotted, f.name))
+        if d:
+            raise Violation('reassign:slot:%s:%s' % (f.type, d.kind),
+                            'after re-assignment: ' + d)
+    # and once more on another channel, then back: channel is part of the call
+    again = call('marshal', frame.marshal, obj, (ch + 1) % 65536)
+    if again[1:3] != ((ch + 1) % 65536).to_bytes(2, 'big') or again[7:] != data[7:]:
+        raise Violation('reassign:channel', 're-encoding on another channel changed '
+                        'the payload or kept the old channel')
+    return ['changed' if first != data else 'same-bytes']
+
+
+def reassign_cases(tier):
+    from hypothesis import strategies as st
+    with_args = [m.dotted for m in spec_table.METHODS if m.fields]
+    return st.sampled_from(with_args).flatmap(
+        lambda d: st.fixed_dictionaries({
+            'cls': st.just(d), 'ch': S.CHANNELS, 'inplace': st.booleans(),
+            'args': S.method_args(d, 4, False),
+            'args2': S.method_args(d, 4, False)}))
+
+
+def reassign_sweep(tier, shard, nshards):
+    out = []
+    for m in spec_table.METHODS:
+        if not m.fields:
+            continue
+        a1, a2 = {}, {}
+        for i, f in enumerate(m.fields):
+            c = S._CONSTRAINED.get((m.dotted, f.name))
+            if c and c[0] == 'fixed':
+                a1[f.name] = a2[f.name] = c[1]
+            elif f.type in ('shortstr', 'longstr'):
+                a1[f.name], a2[f.name] = 'one%d' % i, 'two%d' % i
+            elif f.type == 'table':
+                a1[f.name], a2[f.name] = {'a': i}, {'b': [i], 'a': None}
+            elif f.type == 'bit':
+                a1[f.name], a2[f.name] = False, True
+            else:
+                a1[f.name], a2[f.name] = 1 + i, 200 + i
+        for inplace in (False, True):
+            out.append({'cls': m.dotted, 'ch': 3, 'inplace': inplace, 'args': a1,
+                        'args2': a2})
+    return out[shard::nshards]
+
+
 _EXT = {'octet': (0, 255), 'short': (0, 65535), 'long': (0, 2**32 - 1),
         'longlong': (-2**63, 2**63 - 1)}
 
@@ -145,6 +217,16 @@ COMPONENTS = [
               classes=classes,
               describe='every class x every bit vector x {min,max} of every free '
                        'integer slot, boundary channels in rotation'),
+    Component('reassign-all', check_reassign, cases=reassign_sweep,
+              nontrivial=lambda c: True, shards={'quick': 4, 'thorough': 4},
+              classes=lambda c: ['inplace' if c['inplace'] else 'setattr'],
+              describe='every class with arguments: encode, re-assign every argument '
+                       '(setattr / table in place), encode the same object again'),
+    Component('reassign', check_reassign, strategy=reassign_cases,
+              nontrivial=lambda c: c['args'] != c['args2'],
+              classes=lambda c: ['inplace' if c['inplace'] else 'setattr'],
+              budget={'quick': 6400, 'thorough': 160000},
+              describe='random first and second assignment on one object'),
     Component('frames', check, strategy=lambda tier: S.method_cases(8, True),
               nontrivial=nontrivial, classes=classes,
               budget={'quick': 24000, 'thorough': 640000},
